@@ -152,8 +152,14 @@ class Sim:
             # graph shape (dask optimisation flags) is NOT in what the properties quantify over, and dask itself
             # mis-executes some unoptimised graphs (0-d from_delayed blocks): a run with a non-default shape is a
             # probe run -- its findings are counted and printed as PROBE, never as VIOLATION.
-            self.optimize_graph = not self.ch.bool(0.08, "no-optimize")
-            self.fuse = self.ch.pick([None, True, False], "fuse", weights=[0.84, 0.08, 0.08])
+            # The shape is drawn ONCE per run (a run with several simulated phases would otherwise almost always contain a
+            # non-default one and lose its verdicts); every phase of the run then uses it.
+            shape = getattr(self.run, "_graph_shape", None) if self.run is not None else None
+            if shape is None:
+                shape = (not self.ch.bool(0.05, "no-optimize"), self.ch.pick([None, True, False], "fuse", weights=[0.9, 0.05, 0.05]))
+                if self.run is not None:
+                    self.run._graph_shape = shape
+            self.optimize_graph, self.fuse = shape
             if self.fuse is not None:
                 settings["optimization.fuse.active"] = self.fuse
             self.nondefault_shape = (not self.optimize_graph) or self.fuse is not None
